@@ -946,6 +946,23 @@ func (x *exec) comparatorObligs(fr *frame, s *State, slice, less *Val, pos token
 	pc.Ensures = nil
 	r1 := x.inline(fr, st, fn, []*Val{i, j}, less.Clo.Bind, pos)
 	r2 := x.inline(fr, st, fn, []*Val{j, i}, less.Clo.Bind, pos)
+	// sort.Slice permutes the slice it is given and asks less(i, j) about the CURRENT contents: with the
+	// elements at i and j exchanged, less(i, j) must answer what less(j, i) answered before. A comparison
+	// function that reads some other (un-permuted) slice or copy fails this.
+	if slT, ok := slice.Typ.Underlying().(*types.Slice); ok {
+		st2 := st.clone()
+		en, es := x.elemArr(slT.Elem())
+		h := x.h.get(st2, en, es)
+		ref := App("s-ref", x.term(slice))
+		off := App("s-off", x.term(slice))
+		ii, jj := x.c.EIdx(off, x.term(i)), x.c.EIdx(off, x.term(j))
+		arr := Sel(h, ref)
+		x.h.set(st2, en, es, Sto(h, ref, Sto(Sto(arr, ii, Sel(arr, jj)), jj, Sel(arr, ii))))
+		r3 := x.inline(fr, st2, fn, []*Val{i, j}, less.Clo.Bind, pos)
+		if r3 != nil && r2 != nil && r3.T != "" && r2.T != "" {
+			x.oblig(fr, st2.clone(), fmt.Sprintf("closure%d.comparator", closureOrdinal(fn)), "readsTheSliceBeingSorted", pos, Eq(x.term(r3), x.term(r2)), pc.Comparator[0].Props)
+		}
+	}
 	pc.Ensures = saved
 	env := x.frameEnv(fr, st, pos)
 	env.vars[fn.Params[0].Name()] = i
